@@ -4,6 +4,7 @@ embedded word lists, source snapshots).  The word lists embedded in the reposito
 for index, the committed official lists, and their files must hash to the official digests.
 -/
 import Iota.Tie.Bip39Code
+import Iota.Tie.Bip39BigCode
 import Iota.Gen.Bip39
 import Iota.Tie.Expect
 import Iota.Model.Mnemonic
@@ -45,10 +46,6 @@ theorem official_digests :
 
 theorem src :
     Gen.Bip39.src_bip39_MnemonicToSeed = Expect.Bip39_src_bip39_MnemonicToSeed ∧
-    Gen.Bip39.src_bip39_EntropyToMnemonic = Expect.Bip39_src_bip39_EntropyToMnemonic ∧
-    Gen.Bip39.src_bip39_MnemonicToEntropy = Expect.Bip39_src_bip39_MnemonicToEntropy ∧
-    Gen.Bip39.src_bip39_computeChecksum = Expect.Bip39_src_bip39_computeChecksum ∧
-    Gen.Bip39.src_bip39_validateMnemonic = Expect.Bip39_src_bip39_validateMnemonic ∧
     Gen.Bip39.src_bip39_ParseMnemonic = Expect.Bip39_src_bip39_ParseMnemonic ∧
     Gen.Bip39.src_bip39_Mnemonic_String = Expect.Bip39_src_bip39_Mnemonic_String ∧
     Gen.Bip39.src_bip39_Mnemonic_MarshalText = Expect.Bip39_src_bip39_Mnemonic_MarshalText ∧
@@ -62,7 +59,7 @@ theorem src :
     Gen.Bip39.src_wordlists_wordList_Index = Expect.Bip39_src_wordlists_wordList_Index ∧
     Gen.Bip39.src_wordlists_English = Expect.Bip39_src_wordlists_English ∧
     Gen.Bip39.src_wordlists_Japanese = Expect.Bip39_src_wordlists_Japanese :=
-  ⟨rfl, rfl, rfl, rfl, rfl, rfl, rfl, rfl, rfl, rfl, rfl, rfl, rfl, rfl, rfl, rfl, rfl, rfl⟩
+  ⟨rfl, rfl, rfl, rfl, rfl, rfl, rfl, rfl, rfl, rfl, rfl, rfl, rfl, rfl⟩
 
 /-- everything else the package declares (imports, constants, types, variables, build constraints and the functions not
 pinned one by one) is unchanged too: no declaration of the modelled packages can change without a tie theorem failing. -/
@@ -87,5 +84,50 @@ theorem code_helpers :
         if (e.length * 8) % Bip39.entropyMultiple = 0 ∧ Bip39.entropyMinBits ≤ e.length * 8 ∧ e.length * 8 ≤ Bip39.entropyMaxBits
         then none else some "ErrInvalidEntropySize") :=
   ⟨Bip39Code.entropyBitsToWordCount_eq, Bip39Code.wordCountToEntropyBits_eq, Bip39Code.padBytes_eq, Bip39Code.validateEntropy_eq⟩
+
+/-! ### bip39.go — `EntropyToMnemonic`, `MnemonicToEntropy`, `computeChecksum`, `validateMnemonic` — translated AS CODE = the
+model (`Gen.Bip39Code.big.*` in `Iota/Gen/Bip39Code.lean`, stage 12 of the translator: `*big.Int` as `Int` with `SetBytes`,
+`Bytes`, `Int64`, `And`, `Or`, `Lsh`, `Rsh`, the package-level constants `wordIndexMask` and `bigOne`, the named `[]string`
+type `Mnemonic`; `none` as a result = Go run-time panic).  `sha256.Sum256` is a PARAMETER `sum` (`hH`: it is `H` on model
+bytes) and so are the three methods of the package-level interface variable `wordList`; `Externs W contains word index` says
+that they are the methods of a list `W` of 2048 words (met by every such list with its own methods, `externs_of`).
+Proofs: `Iota/Tie/Bip39BigCode.lean`; end-to-end corollaries on the generated functions alone: `Iota/Tie/E2E/Bip39.lean`.
+These four functions are no longer pinned by source text. -/
+
+open Iota.Tie.Bech32Code (bv)
+open Iota.Tie.Bip39BigCode (Externs bvs encWords encBytes containsOf wordOf indexOf)
+open Iota.Bip39 (Bytes Word)
+
+/-- **The Go function `EntropyToMnemonic`, translated statement by statement, returns for EVERY entropy byte string (shorter
+than 2^59) exactly what the model returns — the sentence, or `ErrInvalidEntropySize` — and never panics.** -/
+theorem code_entropyToMnemonic {W : List Word} {contains : List (BitVec 8) → Bool} {word : BitVec 64 → Option (List (BitVec 8))}
+    {index : List (BitVec 8) → Option (BitVec 64)} (E : Externs W contains word index)
+    (sum : List (BitVec 8) → List (BitVec 8)) (H : Bytes → Bytes) (hH : ∀ x, sum (bv x) = bv (H x))
+    (e : Bytes) (he : e.length < 2 ^ 59) :
+    Gen.Bip39Code.big.EntropyToMnemonic sum word (bv e) = some (encWords (Bip39.entropyToMnemonic H W e)) :=
+  Bip39BigCode.code_entropyToMnemonic E sum H hH e he
+
+/-- **The Go function `MnemonicToEntropy`, translated statement by statement (the big.Int decoder loop, the checksum mask,
+`Rsh(...).Bytes()`, `padBytes`, the comparison), returns for EVERY word sequence (fewer than 2^58 words) exactly what the
+model returns — the entropy, `ErrInvalidMnemonic` or `ErrInvalidChecksum` — and never panics: `panic("invalid word index")`,
+the panics of `wordList.Index`, `padBytes` and `computeChecksum` are unreachable.** -/
+theorem code_mnemonicToEntropy {W : List Word} {contains : List (BitVec 8) → Bool} {word : BitVec 64 → Option (List (BitVec 8))}
+    {index : List (BitVec 8) → Option (BitVec 64)} (E : Externs W contains word index)
+    (sum : List (BitVec 8) → List (BitVec 8)) (H : Bytes → Bytes) (hH : ∀ x, sum (bv x) = bv (H x))
+    (m : List Word) (hm : m.length < 2 ^ 58) :
+    Gen.Bip39Code.big.MnemonicToEntropy sum contains index (bvs m) = some (encBytes (Bip39.mnemonicToEntropy H W m)) :=
+  Bip39BigCode.code_mnemonicToEntropy E sum H hH m hm
+
+/-- `computeChecksum` as code: the first `n` bits of the digest; panics exactly for `n > 256` -/
+theorem code_computeChecksum (sum : List (BitVec 8) → List (BitVec 8)) (H : Bytes → Bytes) (hH : ∀ x, sum (bv x) = bv (H x))
+    (b : Bytes) (n : Nat) (hn : n < 2 ^ 63) :
+    Gen.Bip39Code.big.computeChecksum sum (bv b) (BitVec.ofNat 64 n) =
+      if 256 < n then none else some (Bip39.computeChecksum H b n : Int) :=
+  Bip39BigCode.code_computeChecksum sum H hH b n hn
+
+/-- the assumption about the word-list methods is met by every list of 2048 words with its own methods — in particular by
+the two official lists the repository's lists are tied to (`wordlists` above) -/
+theorem code_externs_satisfiable (W : List Word) (hW : W.length = 2048) :
+    Externs W (containsOf W) (wordOf W) (indexOf W) := Bip39BigCode.externs_of W hW
 
 end Iota.Tie.C03
